@@ -10,6 +10,17 @@ use std::sync::OnceLock;
 
 pub struct C10;
 
+/// This check is cheap: the quick tier already runs the full alphabet (what used to be the
+/// thorough tier); `deep` marks the extras that only the thorough tier adds.
+#[allow(dead_code)]
+fn full(_t: Tier) -> bool {
+    true
+}
+#[allow(dead_code)]
+fn deep(t: Tier) -> bool {
+    t == Tier::Thorough
+}
+
 #[derive(Clone, Debug)]
 struct Case {
     class: &'static str,
@@ -31,7 +42,7 @@ fn bad_requests(tier: Tier) -> Vec<(&'static str, Vec<u8>)> {
     v.push(("non-ascii-request-line", b"GET /caf\xc3\xa9 HTTP/1.1\r\nHost: t\r\n\r\n".to_vec()));
     v.push(("non-ascii-header-name", b"GET /x HTTP/1.1\r\nX-\xe9: v\r\n\r\n".to_vec()));
     v.push(("non-ascii-header-value", b"GET /x HTTP/1.1\r\nHost: t\r\nX-A: caf\xc3\xa9\r\n\r\n".to_vec()));
-    let expects: Vec<&str> = if tier == Tier::Thorough {
+    let expects: Vec<&str> = if full(tier) {
         vec!["100-continuee", "100-CONTINUEE", "100-Continuee", "200-ok", "200-OK", "200-Ok", "100-continue, x", "100-CONTINUE, X", "100-Continue, x"]
     } else {
         vec!["100-continuee", "200-OK", "100-Continue, x"]
@@ -44,7 +55,7 @@ fn bad_requests(tier: Tier) -> Vec<(&'static str, Vec<u8>)> {
     let on_10: Vec<(&'static str, Vec<u8>)> = v
         .iter()
         .filter(|(c, b)| !c.starts_with("version") && !c.starts_with("request-line") && b.windows(8).any(|w| w == b"HTTP/1.1"))
-        .filter(|(c, _)| tier == Tier::Thorough || *c == "expect-unsupported" || *c == "header-without-colon")
+        .filter(|(c, _)| full(tier) || *c == "expect-unsupported" || *c == "header-without-colon")
         .map(|(c, b)| {
             let s = String::from_utf8_lossy(b).replacen("HTTP/1.1", "HTTP/1.0", 1);
             // bytes >= 0x80 do not survive the lossy round trip: patch the token in place instead
@@ -67,17 +78,17 @@ fn bad_requests(tier: Tier) -> Vec<(&'static str, Vec<u8>)> {
 fn cases(tier: Tier) -> &'static Vec<Case> {
     static Q: OnceLock<Vec<Case>> = OnceLock::new();
     static T: OnceLock<Vec<Case>> = OnceLock::new();
-    let cell = if tier == Tier::Quick { &Q } else { &T };
+    let cell = if !full(tier) { &Q } else { &T };
     cell.get_or_init(|| {
         let mut v = Vec::new();
-        let max_len = if tier == Tier::Thorough { 4 } else { 3 };
+        let max_len = if full(tier) { 4 } else { 3 };
         for (class, bad) in bad_requests(tier) {
             for len in 1..=max_len {
                 for pos in 0..len {
                     // valid neighbours: every combination of GET / POST-with-small-body
                     let others = len - 1;
                     for mask in 0..(1u32 << others) {
-                        if tier == Tier::Quick && mask != 0 && mask != (1 << others) - 1 {
+                        if !full(tier) && mask != 0 && mask != (1 << others) - 1 {
                             continue;
                         }
                         let mut bytes = Vec::new();
@@ -155,7 +166,7 @@ impl Check for C10 {
         let classes: std::collections::BTreeSet<&str> = bad_requests(tier).iter().map(|b| b.0).collect();
         format!(
             "{} malformed/unsupported request forms in classes {:?}, each placed at every position of a pipeline of 1..{} requests with every combination of valid neighbours (GET / POST with a small body), application answering immediately or only after the client's stream has ended; {} conversations; the reference model fixes what is delivered (never the rejected request), the order and status of what the client sees (earlier answers first, then 400+close / 417+close / close / 505 and continued service) and that the conversation terminates (a deadlock report is a violation)",
-            bad_requests(tier).len(), classes, if tier == Tier::Thorough { 4 } else { 3 }, cases(tier).len()
+            bad_requests(tier).len(), classes, if full(tier) { 4 } else { 3 }, cases(tier).len()
         )
     }
     fn replay(&self, replay: &Value, acc: &mut Acc) {
